@@ -77,7 +77,7 @@ NATIVE_PATH_SEGMENTS = {
     "name": "c14_native_path_segments",
     "cwd": lambda repo, root: __import__("os").path.join(root, "kani-crates", "c14seg"),
     "prepare": c14seg_extract.prepare,
-    "checks": ["identity_rewrite", "there_and_back", "localize_text"],
+    "checks": ["identity_rewrite", "there_and_back", "localize_text", "table_round_trip"],
     "env": {"quick": {"C14SEG_MAX_N": "3", "C14SEG_MAX_M": "3"}, "thorough": {"C14SEG_MAX_N": "4", "C14SEG_MAX_M": "5"}},
     "timeout": 900,
     "target_tag": "c14seg",
